@@ -329,17 +329,16 @@ ArmBranchBlock(w, dx) ==
 
 \* A5.6 / A5.7.1 / A6.3.18 coprocessor instructions: the same layout of bits 25:0 in the conditional ARM space (A1),
 \* the unconditional ARM space (A2, the "2" variants) and 32-bit Thumb (T1 / T2 by bit 28).  Only generic coprocessors
-\* are specified (CP10/11 = VFP / Advanced SIMD and CP14/15 system accesses reach hooks the emulator does not model).
+\* and the CP14 / CP15 system spaces are specified (CP10/11 = VFP / Advanced SIMD reach hooks the emulator does not model).
 \* Semantics (ISA.tla ExecCoproc): UNDEFINED when NSACR / CPACR deny the access, otherwise the documented
 \* not-implemented outcome of the emulator's coprocessor hooks.
 CoprocSpace(w, sfx, thumb) ==
   LET op1 == Slice(w, 25, 20)  cp == Slice(w, 11, 8)  op == Bit(w, 4)  n == Slice(w, 19, 16)
       t == Slice(w, 15, 12)  t2 == Slice(w, 19, 16)
       P == Bit(w, 24)  W == Bit(w, 21)
-      C(enc, mem, unp) == [k |-> "coproc", enc |-> enc \o sfx, cp |-> cp, memop |-> mem, unp |-> unp]
+      C(enc, mem, unp) == [k |-> "coproc", enc |-> enc \o sfx, cp |-> cp, memop |-> mem, unp |-> unp, w |-> w]
   IN IF op1 \div 2 = 0 THEN Undef
      ELSE IF cp \div 2 = 5 THEN Unimpl("coproc-vfp-advsimd")
-     ELSE IF cp \in {14, 15} THEN Unimpl("coproc-cp14-cp15")
      ELSE IF op1 = 4 THEN C("MCRR", FALSE, t = 15 \/ t2 = 15 \/ (thumb /\ (t = 13 \/ t2 = 13)))
      ELSE IF op1 = 5 THEN C("MRRC", FALSE, t = 15 \/ t2 = 15 \/ t = t2 \/ (thumb /\ (t = 13 \/ t2 = 13)))
      ELSE IF op1 \div 32 = 0 /\ op1 % 2 = 0 THEN C("STC", TRUE, n = 15 /\ (W = 1 \/ thumb))
